@@ -26,7 +26,7 @@ class Unprintable(Exception):
 
 
 VALIDATOR = ["accept-hello", "accept-None", "accept-dict", "raise-ValueError", "raise-SecurityError",
-             "raise-KeyError", "raise-Unprintable", "raise-ConnectionClosedError"]
+             "raise-KeyError", "raise-Unprintable", "raise-ConnectionClosedError", "raise-without-a-message", "raise-empty-message"]
 PAYLOADS = ["ok", "no-handshake-key", "no-object-key", "list", "None", "str", "undecodable"]
 
 
@@ -80,6 +80,10 @@ def h_first_message(S, B):
             raise KeyError("k")
         if validator == "raise-Unprintable":
             raise Unprintable()
+        if validator == "raise-without-a-message":
+            raise PermissionError()                   # str() of it is the empty string
+        if validator == "raise-empty-message":
+            raise errors.SecurityError("")
         raise errors.ConnectionClosedError("validator lost the connection")
     daemon.validateHandshake = validate
     csock = rig.FakeSock("A")
